@@ -32,7 +32,9 @@ CONSTANTS CsTx,        \* ChainState's transaction universe: numeric id |-> [ins
           TxNo,        \* [Txs -> numeric id]
           GNo,         \* [Genesis -> ChainState out-point <<id, index>>]
           L, CbBase,   \* epoch length, cellbase id base (ChainState)
-          WClose, WFar \* tx_proposal_window (ProposalWindow); equals conf.close / conf.far
+          WClose, WFar,\* tx_proposal_window (ProposalWindow); equals conf.close / conf.far
+          Mut          \* "none"; self-tests of the composed invariants: "keep_orphans" (the pool as coded, F9), "no_reload"
+                       \* (proposal table not reloaded below the fork point), "silent_remove" (a removal not marked stale)
 
 VARIABLES blocks, db, snap, invalid,    \* ChainState
           bx,        \* per block: [props: union proposal ids (names), root: the chain root its extension commits to
@@ -168,7 +170,8 @@ NRemove(t) ==
   /\ t \in pool
   /\ LET P2 == pool \ DescOf({t}, pool) IN
      /\ Settle(P2, chain, [x \in P2 |-> st[x]], [op |-> "remove", t |-> t])
-     /\ tpl' = [tpl EXCEPT !.staleP = @ \/ (PG(pool, st) \ P2 # {}), !.staleT = @ \/ (PR(pool, st) \ P2 # {})]
+     /\ tpl' = IF Mut = "silent_remove" THEN tpl
+               ELSE [tpl EXCEPT !.staleP = @ \/ (PG(pool, st) \ P2 # {}), !.staleT = @ \/ (PR(pool, st) \ P2 # {})]
   /\ UNCHANGED <<blocks, db, snap, invalid, bx, ptable, pview, notes, croot>>
 
 \* the environment creates a block on parent p: proposals props, commitments cseq (names, parents first), work w;
@@ -187,7 +190,7 @@ TableAfter(old, new) ==
       k    == keep - 1                                  \* height of the fork point
       t1   == PW!Keep(ptable, {n \in DOMAIN ptable : n <= k})
       t2   == [n \in DOMAIN t1 \cup (keep..(Len(new) - 1)) |-> IF n >= keep THEN bx[new[n + 1]].props ELSE t1[n]]
-      t3   == IF Len(old) > keep THEN PW!Reload(t2, PwOfIds(new), k) ELSE t2
+      t3   == IF Len(old) > keep /\ Mut # "no_reload" THEN PW!Reload(t2, PwOfIds(new), k) ELSE t2
   IN PW!Finalize(t3, pview.set, Len(new) - 1)
 
 \* a block whose parent is known arrives: insert + verify_block (ChainState.Deliver); when the main chain changed the
@@ -226,7 +229,8 @@ NPoolProcess ==
   /\ notes # <<>>
   /\ LET n   == Head(notes)
          ch2 == NewChain(chain, n.k, n.blks)
-         P2  == Purge(IntendedAfterReorg(pool, chain, n.k, n.blks, conf), ch2)
+         P1  == IntendedAfterReorg(pool, chain, n.k, n.blks, conf)
+         P2  == IF Mut = "keep_orphans" THEN P1 ELSE Purge(P1, ch2)
          s2  == Staged(P2, ch2)
      IN /\ Settle(P2, ch2, s2, [op |-> "reorg", k |-> n.k, blks |-> n.blks, before |-> pool, chainBefore |-> chain, rec |-> {}])
         /\ tpl' = FullTpl(P2, s2, ch2)
